@@ -548,4 +548,23 @@ mutual
         | _, _ => none
 end
 
+/-! ## the derived comparisons (`src/builtin/generic.rs`, the dynamic `lt` / `gt` / `ge` / `le` / `ne`)
+
+For a type that has a `cmp` (resp. `eq`) but no `lt` … of its own, the operators `<  >  >=  <=  !=` resolve to dynamic
+functions that call the type's `cmp` (`eq`) once and test the result: `is_negative()`, `is_positive()`,
+`!is_negative()`, `!is_positive()` of the integer `cmp` returned (documented: "whether `cmp(a,b)` is less than / greater
+than / … zero", book std/general.md), and `!eq(a, b)`. -/
+
+/-- `name ↦ test on the result of cmp`; `none` for a name that is not a cmp-derived comparison -/
+def derivedOfCmp (name : String) (c : Int) : Option Bool :=
+  match name with
+  | "lt" => some (decide (c < 0))          -- `.is_negative()`
+  | "gt" => some (decide (c > 0))          -- `.is_positive()`
+  | "ge" => some (!decide (c < 0))         -- `!….is_negative()`
+  | "le" => some (!decide (c > 0))         -- `!….is_positive()`
+  | _ => none
+
+/-- `ne` of a type with `eq` -/
+def derivedNe (e : Bool) : Bool := !e
+
 end XrayModel.Syntax
